@@ -400,6 +400,8 @@ def convention_break(ctx, what, corr, A, B, iso, order=(0.0, 0.0), base=None):
     seen = ctx.__dict__.setdefault("_c05_breaks", {})
     seen[corr] = seen.get(corr, 0) + 1
     ctx.count("convention_break:" + corr)
+    if sum(1 for _, f in ctx.violations if f) >= 3:          # three failing inputs are on record: enough
+        return True
     for s in ((0,) if max(len(A), len(B)) > 12 else (0, 1, 2)):
         ok, det, case = judge_public(A, B, order, s, iso)
         if not ok:
